@@ -307,6 +307,25 @@ Theorem C04_fragment_first_faults_iff_empty :
 Proof. exact frag_first_faults_iff_empty. Qed.
 Print Assumptions C04_fragment_first_faults_iff_empty.
 
+(* indexing: e.Coll(bank)[i].m() as a column - for EVERY collection, index, method, first name index, event and member state
+   the job fails (std::out_of_range of the bounds-checked at()) exactly when the collection has no element number i, and
+   otherwise the row holds m() of that element; never a default, never a neighbouring element.  (Index expressions inside
+   arithmetic, next to other columns and in the event filter are covered by C01_query_job, whose reference gives
+   FOutOfRange for them.) *)
+Theorem C04_fragment_index_faults_iff_short :
+  forall (bk : FragTranslate.backend) (name : string) (cr : collref) (i : nat) (m : string)
+         (n0 : nat) (ev : event) (ms : frame) (l : list value),
+  let r := [(name, ColScalar (EIdx cr i m))] in
+  base_ok (c_base cr) = true -> members_init r (n0 + row_size r) 0 ms ->
+  assoc_ss (c_ctype cr, c_bank cr) (ev_colls ev) = Some (VVec l) ->
+  match nth_error l i with
+  | None => run_event (prog_row bk r n0) ms ev = RFault FOutOfRange
+  | Some v => forall x, call_method ev v m [] = ROk x ->
+              exists ms', run_event (prog_row bk r n0) ms ev = ROk ([[conv "double" x]], ms')
+  end.
+Proof. exact frag_index_faults_iff_short. Qed.
+Print Assumptions C04_fragment_index_faults_iff_short.
+
 (* and / or in a Where of the fragment (lowered through a bool variable declared in the loop block, each further
    operand assigned inside `if (v)` / `if (!v)`): the guard of the reference semantics, which C01_query_job proves
    the emitted job implements for every query, is as lazy as Python's - the operands after the deciding one are
